@@ -87,7 +87,7 @@ func (l *withPrefix) SafeDetails() []string {
 
 func encodeWithPrefix(_ context.Context, err error) (string, []string, proto.Message) {
 	l := err.(*withPrefix)
-	return l.Error(), l.SafeDetails(), &errorspb.StringPayload{Msg: string(l.prefix)}
+	return l.prefix.StripMarkers(), l.SafeDetails(), &errorspb.StringPayload{Msg: string(l.prefix)}
 }
 
 func decodeWithPrefix(
